@@ -19,6 +19,7 @@ package c16
 
 import (
 	"bytes"
+	"crypto/tls"
 	"fmt"
 	"io"
 	"net"
@@ -47,7 +48,14 @@ type LOp struct {
 	Op   string `json:"op"`             // add | edit | remove
 	Name string `json:"name"`           // a b c
 	Kind string `json:"kind,omitempty"` // add: http smb ext svc
-	Port string `json:"port,omitempty"` // http add: fresh | busy (held by the harness) | same (port of a running HTTP listener)
+	Port string `json:"port,omitempty"` // http add: fresh | busy (held by the harness) | same (port of a running HTTP listener) | empty (PortBind "": the kernel picks one)
+
+	// further field classes of an HTTP add; the zero value is the plain form
+	Hosts    string `json:"hosts,omitempty"`     // "" one host | empty ("Hosts": "") | several | spaces
+	HostBind string `json:"host_bind,omitempty"` // "" 127.0.0.1 | empty ("") | any (0.0.0.0)
+	PortConn string `json:"port_conn,omitempty"` // "" same as PortBind | empty | other
+	Secure   bool   `json:"secure,omitempty"`    // Protocol Https / Secure "true"
+	Via      string `json:"via,omitempty"`       // "" operator package | start: Teamserver.ListenerStart with an HTTPConfig, as Start() does for profile and restored listeners
 
 	UA      string   `json:"ua,omitempty"`
 	Uris    []string `json:"uris,omitempty"`
@@ -76,6 +84,19 @@ func genHTTPCfg(t *rapid.T, op *LOp) {
 	op.Headers = rapid.SampledFrom(headersA).Draw(t, "headers")
 }
 
+// genHTTPAdd draws the remaining field classes of an HTTP add: everything the Add path of
+// the teamserver accepts (dispatch.go Listener.Add / ListenerStart make no demands on them).
+func genHTTPAdd(t *rapid.T, op *LOp) {
+	op.Port = rapid.SampledFrom([]string{"fresh", "fresh", "fresh", "fresh", "busy", "same", "empty"}).Draw(t, "port")
+	op.Hosts = rapid.SampledFrom([]string{"", "", "", "empty", "several", "spaces"}).Draw(t, "hosts")
+	op.HostBind = rapid.SampledFrom([]string{"", "", "", "empty", "any"}).Draw(t, "hostbind")
+	op.PortConn = rapid.SampledFrom([]string{"", "", "empty", "other"}).Draw(t, "portconn")
+	op.Secure = rapid.IntRange(0, 9).Draw(t, "secure") == 0
+	if rapid.IntRange(0, 7).Draw(t, "via") == 0 {
+		op.Via = "start"
+	}
+}
+
 // genOps draws n operations; pred is the generator's own prediction of name -> kind (used
 // only to steer, never by the oracle).  httpRemovals is how many removals of HTTP
 // listeners may still be drawn.
@@ -99,7 +120,7 @@ func genOps(t *rapid.T, n int, pred map[string]string, httpRemovals *int) []LOp 
 			op.Kind = rapid.SampledFrom([]string{"http", "http", "http", "smb", "ext", "svc"}).Draw(t, "kind")
 			switch op.Kind {
 			case "http":
-				op.Port = rapid.SampledFrom([]string{"fresh", "fresh", "fresh", "busy", "same"}).Draw(t, "port")
+				genHTTPAdd(t, &op)
 				genHTTPCfg(t, &op)
 			case "svc":
 				op.SvcReply = rapid.SampledFrom([]string{"ok", "ok", "error", "silent"}).Draw(t, "svcreply")
@@ -148,7 +169,11 @@ func genB(t *rapid.T) CaseA {
 			ops = append(ops, LOp{Op: "remove", Name: name})
 			delete(pred, name)
 		}
-		add := LOp{Op: "add", Name: name, Kind: "http", Port: rapid.SampledFrom([]string{"fresh", "fresh", "fresh", "busy"}).Draw(t, "vport")}
+		add := LOp{Op: "add", Name: name, Kind: "http"}
+		genHTTPAdd(t, &add)
+		if add.Port == "same" {
+			add.Port = "fresh"
+		}
 		genHTTPCfg(t, &add)
 		ops = append(ops, add)
 		pred[name] = "http"
@@ -223,9 +248,11 @@ func accepts(c httpCfg, p probe) bool {
 
 type ent struct {
 	kind   string // http smb ext svc
-	port   string
+	port   string // "" when unknown
 	active bool
+	secure bool
 	cfg    httpCfg
+	op     LOp // the add that created it (edits resend its read-only fields)
 }
 
 // ---------------------------------------------------------------------------- world
@@ -238,7 +265,11 @@ type worldA struct {
 	agentID uint32
 }
 
-func (w *worldA) post(port string, p probe) (int, error) {
+func (w *worldA) post(e *ent, p probe) (int, error) {
+	port, scheme := e.port, "http"
+	if e.secure {
+		scheme = "https"
+	}
 	w.agentID++
 	id := 0x10000000 + w.agentID
 	key := bytes.Repeat([]byte{0x11}, 32)
@@ -246,7 +277,7 @@ func (w *worldA) post(port string, p probe) (int, error) {
 	md := demonref.MetaData{AgentID: id, Hostname: "H", Username: "u", Domain: "d", InternalIP: "10.0.0.1", ProcessPath: "C:\\p.exe",
 		PID: 1, TID: 2, PPID: 3, ProcessArch: 2, OSMajor: 10, OSBuild: 19045, OSArch: 9, Sleep: 2}
 	body := md.InitPackage(id, key, iv)
-	req, err := http.NewRequest(http.MethodPost, "http://127.0.0.1:"+port+p.URI, bytes.NewReader(body))
+	req, err := http.NewRequest(http.MethodPost, scheme+"://127.0.0.1:"+port+p.URI, bytes.NewReader(body))
 	if err != nil {
 		return 0, err
 	}
@@ -254,7 +285,7 @@ func (w *worldA) post(port string, p probe) (int, error) {
 	for k, v := range p.Headers {
 		req.Header.Set(k, v)
 	}
-	cl := &http.Client{Transport: &http.Transport{DisableKeepAlives: true}, Timeout: svcx.Bound}
+	cl := &http.Client{Transport: &http.Transport{DisableKeepAlives: true, TLSClientConfig: &tls.Config{InsecureSkipVerify: true}}, Timeout: svcx.Bound}
 	resp, err := cl.Do(req)
 	if err != nil {
 		return 0, err
@@ -269,13 +300,17 @@ func (w *worldA) post(port string, p probe) (int, error) {
 // real handleRequest goroutine ends the process) becomes a violation named after the
 // operation and the innermost teamserver function.
 func (w *worldA) operate(what string, sub int, info map[string]string) (v *core.Violation) {
+	return w.guard(what, func() { w.fx.Operator("op", packager.Type.Listener.Type, sub, info) }, info)
+}
+
+func (w *worldA) guard(what string, f func(), info ...map[string]string) (v *core.Violation) {
 	defer func() {
 		if r := recover(); r != nil {
 			st := string(debug.Stack())
-			v = core.V("listener|"+what+"|panic|"+core.HavocFrame(st), "operator %s package %v makes the teamserver panic (in handleRequest's goroutine this ends the process): %v\n%s", what, info, r, st)
+			v = core.V("listener|"+what+"|panic|"+core.HavocFrame(st), "%s %v makes the teamserver panic (in handleRequest's goroutine this ends the process): %v\n%s", what, info, r, st)
 		}
 	}()
-	w.fx.Operator("op", packager.Type.Listener.Type, sub, info)
+	f()
 	return nil
 }
 
@@ -398,13 +433,64 @@ func protoOf(kind string) string {
 	return svcKind
 }
 
-func httpInfo(name, port string, c httpCfg) map[string]string {
-	return map[string]string{
+func hostsOf(cls string) string {
+	switch cls {
+	case "empty":
+		return ""
+	case "several":
+		return "127.0.0.1, 10.0.0.2, c2.example.org"
+	case "spaces":
+		return " 127.0.0.1 ,  c2.example.org "
+	}
+	return "127.0.0.1"
+}
+
+func hostBindOf(cls string) string {
+	switch cls {
+	case "empty":
+		return ""
+	case "any":
+		return "0.0.0.0"
+	}
+	return "127.0.0.1"
+}
+
+func portConnOf(cls, port string) string {
+	switch cls {
+	case "empty":
+		return ""
+	case "other":
+		return "443"
+	}
+	return port
+}
+
+// httpInfo is the Info map of the client's New/Edit Listener dialog for an HTTP(S) listener.
+func httpInfo(name, port string, c httpCfg, o LOp) map[string]string {
+	m := map[string]string{
 		"Name": name, "Protocol": handlers.AGENT_HTTP, "Status": "online", "Secure": "false",
-		"Hosts": "127.0.0.1", "HostBind": "127.0.0.1", "HostRotation": "round-robin",
-		"PortBind": port, "PortConn": port,
+		"Hosts": hostsOf(o.Hosts), "HostBind": hostBindOf(o.HostBind), "HostRotation": "round-robin",
+		"PortBind": port, "PortConn": portConnOf(o.PortConn, port),
 		"Headers": strings.Join(c.Headers, ", "), "Uris": strings.Join(c.Uris, ", "),
 		"UserAgent": c.UA, "HostHeader": "", "Proxy Enabled": "false",
+	}
+	if o.Secure {
+		m["Protocol"], m["Secure"] = handlers.AGENT_HTTPS, "true"
+	}
+	return m
+}
+
+// httpConfig is the same listener the way Start() hands profile / restored listeners to
+// ListenerStart (teamserver.go:241-256, :356-380).
+func httpConfig(name, port string, c httpCfg, o LOp) handlers.HTTPConfig {
+	var hosts []string
+	if h := hostsOf(o.Hosts); h != "" {
+		hosts = strings.Split(h, ", ")
+	}
+	return handlers.HTTPConfig{
+		Name: name, Hosts: hosts, HostBind: hostBindOf(o.HostBind), HostRotation: "round-robin",
+		PortBind: port, PortConn: portConnOf(o.PortConn, port),
+		UserAgent: c.UA, Headers: c.Headers, Uris: c.Uris, Secure: o.Secure,
 	}
 }
 
@@ -479,17 +565,19 @@ func checkA(c CaseA) *core.Violation {
 				case "same":
 					port = w.busyP
 					for _, n := range namesA {
-						if e := model[n]; e != nil && e.kind == "http" && e.active {
+						if e := model[n]; e != nil && e.kind == "http" && e.active && e.port != "" {
 							port = e.port
 							break
 						}
 					}
+				case "empty":
+					port = ""
 				default:
 					if port, err = svcx.FreePort(); err != nil {
 						return skip("free-port", err)
 					}
 				}
-				info = httpInfo(op.Name, port, cfg)
+				info = httpInfo(op.Name, port, cfg, op)
 			case "smb":
 				info["PipeName"] = "pipe_" + op.Name
 			case "ext":
@@ -500,7 +588,15 @@ func checkA(c CaseA) *core.Violation {
 				w.svc.ListenerReply = op.SvcReply
 			}
 			from := len(w.svc.Received())
-			if v := w.operate("add", packager.Type.Listener.Add, info); v != nil {
+			var ownBefore map[string]bool
+			if op.Kind == "http" && port == "" {
+				ownBefore = svcx.OwnListenPorts()
+			}
+			if op.Kind == "http" && op.Via == "start" {
+				if v := w.guard("add", func() { ts.ListenerStart(handlers.LISTENER_HTTP, httpConfig(op.Name, port, cfg, op)) }); v != nil {
+					return v
+				}
+			} else if v := w.operate("add", packager.Type.Listener.Add, info); v != nil {
 				return v
 			}
 			if op.Kind == "svc" {
@@ -540,11 +636,23 @@ func checkA(c CaseA) *core.Violation {
 				switch {
 				case len(after) == 0 && (op.Kind == "smb" || op.Kind == "ext" || op.Kind == "svc"):
 					return core.V("listener|add|missing|"+op.Kind, "step %d: add %s %q (new name) left no listener of that name", i, op.Kind, op.Name)
-				case len(after) == 0 && op.Kind == "http" && op.Port == "fresh":
+				case len(after) == 0 && op.Kind == "http" && (op.Port == "fresh" || op.Port == "empty"):
 					return core.V("listener|add|missing|http", "step %d: add http %q (new name, free port %s) left no listener of that name", i, op.Name, port)
 				}
 				if len(after) >= 1 {
-					e := &ent{kind: kindOfListener(after[0]), port: port, cfg: cfg}
+					e := &ent{kind: kindOfListener(after[0]), port: port, cfg: cfg, secure: op.Kind == "http" && op.Secure, op: op}
+					if ownBefore != nil {
+						// PortBind "": the kernel chose; find the listening socket that appeared
+						var fresh []string
+						for p := range svcx.OwnListenPorts() {
+							if !ownBefore[p] {
+								fresh = append(fresh, p)
+							}
+						}
+						if len(fresh) == 1 {
+							e.port = fresh[0]
+						}
+					}
 					if e.kind != op.Kind {
 						return core.V("listener|add|wrong-kind|"+op.Kind, "step %d: add %s %q produced a %s listener", i, op.Kind, op.Name, e.kind)
 					}
@@ -557,8 +665,8 @@ func checkA(c CaseA) *core.Violation {
 			if v := w.invariants(label); v != nil {
 				return v
 			}
-			if e := model[op.Name]; me == nil && e != nil && e.kind == "http" && e.active {
-				code, err := w.post(e.port, probeFor(e.cfg))
+			if e := model[op.Name]; me == nil && e != nil && e.kind == "http" && e.active && e.port != "" {
+				code, err := w.post(e, probeFor(e.cfg))
 				if err != nil {
 					h := after[0].Config.(*handlers.HTTP)
 					return core.V("listener|add|http|not-serving", "step %d: listener %q reports Active on port %s but a request fails: %v (now: Active=%v, this process listens on the port=%v, all goroutines parked=%v)\n%s", i, op.Name, e.port, err, h.Active, svcx.OwnListening(e.port), svcx.Quiesce(), strings.Join(svcx.Goroutines(), "\n\n"))
@@ -575,11 +683,11 @@ func checkA(c CaseA) *core.Violation {
 			switch {
 			case me == nil || me.kind == "http" || op.Stale:
 				// the Edit dialog of an HTTP listener: everything but UA/headers/URIs is read-only
-				port := "8080"
+				port, orig := "8080", LOp{}
 				if me != nil && me.kind == "http" {
-					port = me.port
+					port, orig = me.port, me.op
 				}
-				info = httpInfo(op.Name, port, cfg)
+				info = httpInfo(op.Name, port, cfg, orig)
 				if me == nil {
 					label = "edit-unknown"
 				} else if me.kind != "http" {
@@ -617,7 +725,7 @@ func checkA(c CaseA) *core.Violation {
 			if me != nil && me.kind == "http" {
 				old := me.cfg
 				me.cfg = cfg
-				if me.active {
+				if me.active && me.port != "" {
 					for _, pr := range []struct {
 						what string
 						p    probe
@@ -626,7 +734,7 @@ func checkA(c CaseA) *core.Violation {
 						if accepts(cfg, pr.p) {
 							want = 200
 						}
-						code, err := w.post(me.port, pr.p)
+						code, err := w.post(me, pr.p)
 						if err != nil {
 							return core.V("listener|edit|http|not-serving", "step %d: request to edited listener %q failed: %v", i, op.Name, err)
 						}
@@ -659,7 +767,7 @@ func checkA(c CaseA) *core.Violation {
 			if v := w.invariants(label); v != nil {
 				return v
 			}
-			if me != nil && me.kind == "http" && me.active {
+			if me != nil && me.kind == "http" && me.active && me.port != "" {
 				if !svcx.Refuses(me.port) && svcx.OwnListening(me.port) {
 					return core.V("listener|remove|http|still-accepting", "step %d: removed HTTP listener %q still accepts TCP connections on port %s", i, op.Name, me.port)
 				}
@@ -674,7 +782,7 @@ func checkA(c CaseA) *core.Violation {
 func classifyA(c CaseA) core.Class {
 	var cl core.Class
 	pred := map[string]string{}
-	dup, unknown, failed, httpRm, stale := 0, 0, 0, 0, 0
+	dup, unknown, failed, httpRm, stale, unusual := 0, 0, 0, 0, 0, 0
 	kinds := map[string]bool{}
 	for _, op := range c.Ops {
 		k, present := pred[op.Name]
@@ -687,9 +795,27 @@ func classifyA(c CaseA) core.Class {
 				cl.Labels = append(cl.Labels, "add-duplicate:"+k+"<-"+op.Kind)
 			} else {
 				pred[op.Name] = op.Kind
-				if op.Kind == "http" && op.Port != "fresh" {
+				if op.Kind == "http" && (op.Port == "busy" || op.Port == "same") {
 					failed++
-					cl.Labels = append(cl.Labels, "http-port:"+op.Port)
+				}
+				if op.Kind == "http" {
+					lab := func(k, v string) {
+						if v == "" {
+							v = "plain"
+						}
+						cl.Labels = append(cl.Labels, "http-"+k+":"+v)
+					}
+					lab("port", op.Port)
+					lab("hosts", op.Hosts)
+					lab("hostbind", op.HostBind)
+					lab("portconn", op.PortConn)
+					lab("via", op.Via)
+					lab("secure", fmt.Sprint(op.Secure))
+					lab("uris", fmt.Sprint(len(op.Uris) > 0))
+					lab("headers", fmt.Sprint(len(op.Headers) > 0))
+					if op.Hosts == "empty" || op.Port == "empty" {
+						unusual++
+					}
 				}
 				if op.Kind == "svc" && op.SvcReply != "ok" {
 					failed++
@@ -732,7 +858,7 @@ func classifyA(c CaseA) core.Class {
 		ks = append(ks, k)
 	}
 	sort.Strings(ks)
-	cl.Fingerprint = fmt.Sprintf("dup=%d|unk=%d|fail=%d|httprm=%d|stale=%d|kinds=%s", b(dup), b(unknown), b(failed), b(httpRm), b(stale), strings.Join(ks, "+"))
+	cl.Fingerprint = fmt.Sprintf("dup=%d|unk=%d|fail=%d|httprm=%d|stale=%d|emptyfield=%d|kinds=%s", b(dup), b(unknown), b(failed), b(httpRm), b(stale), b(unusual), strings.Join(ks, "+"))
 	return cl
 }
 
